@@ -20,6 +20,10 @@ pub mod common;
 mod reader;
 mod shm_header;
 mod writer;
+#[cfg(feature = "verif-hooks")]
+pub mod verif;
+#[cfg(feature = "verif-hooks")]
+pub use crate::shm_header::ShmHeader as VerifShmHeader;
 
 use errno::Errno;
 use nix::sys::time::{TimeSpec, TimeValLike};
